@@ -115,6 +115,8 @@ def run(ctx):
                 first_obs[o["id"]] = o
                 worst_jit = max(worst_jit, o["obs"].get("jit", 0))
             r = v[o["id"]]
+            if rnd_no == 0 and r.get("dev", -1) >= 0:
+                all_dev.append(r["dev"])
             if r["sig"]["class"].startswith("tool:"):
                 raise ToolError("Trace_Timers: %s (id %s)" % (r["sig"]["class"], o["id"]))
             if not r["ok"]:
@@ -124,8 +126,11 @@ def run(ctx):
         todo = nxt
     obs0 = [first_obs[i] for i in sorted(first_obs)]
     nev = sum(len(o["obs"].get("sv", [])) + len(o["obs"].get("cl", [])) for o in obs0)
-    log("[timers] %d scenarios (%d from TLC, %d random) on the real Session::manage: %d timed events; worst metronome lateness %d ms" % (
-        len(obs0), n_tlc, len(scns) - n_tlc, nev, worst_jit))
+    all_dev.sort()
+    pct = lambda p: all_dev[min(len(all_dev) - 1, int(p * len(all_dev)))] if all_dev else -1
+    log("[timers] %d scenarios (%d from TLC, %d random) on the real Session::manage: %d timed events" % (len(obs0), n_tlc, len(scns) - n_tlc, nev))
+    log("[jitter] largest distance between an observed and a specified instant per scenario: median %d ms, p90 %d ms, max %d ms (tolerance 100 ms, "
+        "margin of the scenarios 200 ms); worst metronome lateness %d ms" % (pct(0.5), pct(0.9), all_dev[-1] if all_dev else -1, worst_jit))
     # ---- the binding binds: the same observations against the oracle with the deadline restarted per request must be rejected
     # wherever the two readings differ (a session that is ended by the deadline after a request was parsed later than tick 0)
     pr = judge(ctx, obs0, "perreq", cfg="Trace_Timers_perreq.cfg")
